@@ -114,7 +114,7 @@ package hash
 //@ ensures [buffer-never-left-full] (old(d.bufSize) < d.rate || len(p) > 0) ==> d.bufSize < d.rate
 //@ ensures [fill-level] 0 <= old(d.bufSize) && old(d.bufSize) < d.rate ==> d.bufSize == (old(d.bufSize) + len(p)) % d.rate
 //@ ensures [fill-level-fresh] old(d.bufSize) == -1 ==> d.bufSize == len(p) % d.rate
-//@ loop 1 invariant spongeReady(d) && 0 <= len(p) && len(p) <= len(arg1) && obj(p) == obj(arg1)
+//@ loop 1 invariant spongeReady(d) && spongeKept(d) && 0 <= len(p) && len(p) <= len(arg1) && obj(p) == obj(arg1)
 //@ loop 1 invariant [never-full] d.bufSize < d.rate || (old(d.bufSize) == d.rate && len(p) == len(arg1))
 //@ loop 1 invariant [fill] 0 <= old(d.bufSize) && old(d.bufSize) < d.rate ==> (d.bufSize + len(p)) % d.rate == (old(d.bufSize) + len(arg1)) % d.rate
 //@ loop 1 invariant [fill-fresh] old(d.bufSize) == -1 ==> (d.bufSize + len(p)) % d.rate == len(arg1) % d.rate
